@@ -30,6 +30,7 @@ META = {
     ],
     "floor_evaluations": {"quick": 4000, "thorough": 100000},
     "floor_nontrivial": {"quick": 1200, "thorough": 30000},
+    "threads": 3,
     "anchors": ["func_adl/ast/syntatic_sugar.py", "func_adl/object_stream.py", "func_adl/util_ast.py"],
 }
 
